@@ -177,6 +177,9 @@ class MetaMolecule(nx.Graph):
         self.clear()
         self.add_nodes_from(new_meta_graph.nodes(data=True))
         self.add_edges_from(new_meta_graph.edges)
+        # the new residue nodes need the same defaults as set in __init__
+        nx.set_node_attributes(self, True, "build")
+        nx.set_node_attributes(self, True, "backmap")
 
     def split_residue(self, split_strings):
         """
